@@ -190,7 +190,7 @@ class World:
         pair = self.pairs[pair_idx]
         if amount is None:
             if self.sym_amount:
-                amount = ctx.dec(name + "_amount", self.bp, lo=1, hi=self.amount_hi)
+                amount = ctx.dec(name + "_amount", self.bp, lo=getattr(self, "amount_lo", 1), hi=self.amount_hi)
             else:
                 amount = ctx.pick(name + "_amtc", self.amounts)
         p1 = p2 = None
